@@ -39,7 +39,8 @@ theorem defect_generic (ver : Version) (hver : ver = .v30 ∨ ver = .v31)
     · cases hd
     · rename_i hp
       cases hd
-      exact defect_header _ _ _ _ (Bool.eq_false_iff.mpr hp)
+      have hh : 47 ∉ ver.header := by rcases hver with rfl | rfl <;> decide
+      exact defect_header_headOf _ hh _ _ _ hp
   | illegalValue i v =>
     simp only [Defect.apply] at hd
     split at hd
